@@ -1,11 +1,14 @@
 //! One module per property: case decoder + oracle + classifier.
 use crate::engine::Spec;
 
+pub mod c10;
+pub mod c11;
 pub mod c13;
+pub mod c18;
 pub mod c19;
 
 pub fn all() -> Vec<&'static Spec> {
-    vec![&c13::SPEC, &c19::SPEC]
+    vec![&c10::SPEC, &c11::SPEC, &c13::SPEC, &c18::SPEC, &c19::SPEC]
 }
 
 pub fn find(id: &str) -> Option<&'static Spec> {
